@@ -53,6 +53,9 @@ def run(chk, replay=None):
         "PARTIAL - assumed, not verified: the kernel behaves as modelled (epoll registrations per descriptor, level-triggered "
         "readiness, eventfd counter semantics, readv/writev results, pipe capacity); the models' kernel state is compared with the "
         "real kernel only through the logged syscall results and /proc/self/fdinfo at each completion",
+        "io_uring_context: the model UringOp (Properties_C14_uring.v) is tied to the real code ONLY through the direct monitors of "
+        "harness/k1_uring_io.cpp on real threads and the real ring (no lock-step replay: the context's thread sleeps in io_uring_enter "
+        "and the kernel completes entries asynchronously); each *_refuted witness has its real-thread case (resubmit / prestop / stoprace)",
         "modelled not verified here: the stop source internals (C03) - one linearisation point per registration / request_stop / "
         "deregistration; the atomic_intrusive_queue at link level (C06 AtomicQueue); timers of the I/O contexts (C07's models)",
         "model variant tied to the code: tools/units/io.py MODEL_VARIANT = %r" % io.VARIANT]
